@@ -2,3 +2,4 @@
 pub mod faultsave;
 pub mod text;
 pub mod wb;
+pub mod xlsxgen;
